@@ -1,5 +1,6 @@
 import FimVerif.Drivers.Proto
 import FimVerif.Model.DelegDet
+import FimVerif.Model.DelegHeap
 /-! Line-protocol driver for C12.  JSON values travel in an order-preserving wire form:
 objects `{"o":[[k,v],…]}`, arrays `{"a":[…]}`, floats `{"f":0}`; everything else as itself.
 Details are the C03 model of `Capacities` / `Labels` on the regenerated class specifications (`Model/DelegDet.lean`);
@@ -222,13 +223,42 @@ def buildFamily (cty : DType) (specs : List PSpec) : Except Err (Pools CDet) := 
 
 inductive PStep where
   | add (s : PSpec) | index | gen
+  /-- a setter call on the r-th constructed Pool object (which may sit in the container, and in its index) -/
+  | mut (r : Nat) (what : String) (val : Json)
 
 def pstep (j : Json) : Option PStep :=
   match j with
   | .arr #[.str "add", x] => (pspec x).map PStep.add
   | .arr #[.str "index"] => some .index
   | .arr #[.str "gen"] => some .gen
+  | .arr #[.str "mut", r, .str what, val] => (r.getNat?.toOption).map (fun r => PStep.mut r what val)
   | _ => none
+
+/-- the setter `what(val)` on a pool value: `set_delegation_id`, `set_defined_on`, `set_pool_details`, `add_defined_for`
+(one node / a list), `set_defined_for` -/
+def mutPool (what : String) (val : Json) (p : Pool CDet) : Except Err (Pool CDet) :=
+  if what == "deleg" then
+    match val with
+    | .str k => .ok (mSetDeleg k p)
+    | _ => .error .assertion
+  else if what == "on" then
+    match val with
+    | .str n => .ok (mSetOn n p)
+    | _ => .error .assertion
+  else if what == "det" then
+    match detSpec val with
+    | some (some (k, j)) => do
+      let x ← mkD k j
+      pure (mSetDetails x p)
+    | _ => .error .assertion
+  else if what == "add1" then
+    match val with
+    | .str n => .ok (addDefinedFor p [n])
+    | _ => .error .assertion
+  else
+    match getStrs val with
+    | some l => if what == "addl" then .ok (addDefinedFor p l) else setDefinedFor p l
+    | none => .error .assertion
 
 /-- the nodes of a generated dictionary in the requested order: the listed ones first (as often as listed), the rest sorted -/
 def reorder (order : List String) (r : NodeDelegs CDet) : NodeDelegs CDet :=
@@ -359,16 +389,26 @@ def handle (j : Json) : Json :=
         | .arr st =>
           match st.toList.mapM pstep with
           | some steps =>
-            let r := steps.foldl (fun (acc : Pools CDet × List Json) step =>
+            let r := steps.foldl (fun (acc : HPools CDet × List Json) step =>
               match step with
               | .add s =>
-                match (do let p ← buildPool s; addPool acc.1 p) with
-                | .ok ps => (ps, acc.2 ++ [Json.null])
+                match buildPool s with
                 | .error e => (acc.1, acc.2 ++ [Json.str (errName e)])
+                | .ok p =>
+                  let n := hNew acc.1 p
+                  match hAddPool n.1 n.2 with
+                  | .ok ps => (ps, acc.2 ++ [Json.null])
+                  | .error e => (n.1, acc.2 ++ [Json.str (errName e)])
+              | .mut r what val =>
+                if r < acc.1.heap.length then
+                  match mutPool what val (acc.1.deref r) with
+                  | .ok p => (hMut acc.1 r (fun _ => p), acc.2 ++ [Json.null])
+                  | .error e => (acc.1, acc.2 ++ [Json.str (errName e)])
+                else (acc.1, acc.2 ++ [Json.str "skip"])
               | .index =>
-                let r := buildIndexS acc.1
+                let r := hIndex acc.1
                 (r.1, acc.2 ++ [errJson r.2])
-              | .gen => (acc.1, acc.2 ++ [reply nodeDelegsJson (generate dOps acc.1)])) (emptyPools ty, [])
+              | .gen => (acc.1, acc.2 ++ [reply nodeDelegsJson (generate dOps acc.1.view)])) (hEmpty ty, [])
             ok (.arr r.2.toArray)
           | none => err "bad-args"
         | _ => err "bad-args"
